@@ -3,7 +3,7 @@
    Each is a plain alias of the definition the theorems are stated about. *)
 From Coq Require Import List NArith.
 From Coq.Strings Require Import Byte.
-From SP Require Import Bytes BaseX Encodings Rand Params Msgpack Crypto Errors Packets Chunker Sign Verify Encrypt Decrypt Signcrypt.
+From SP Require Import Bytes BaseX Encodings Rand Params Msgpack Crypto Errors Packets Chunker Sign Verify Encrypt Decrypt Signcrypt Armor.
 
 Definition m_byte_to_N := Byte.to_N.
 Definition m_bx_encode := BaseX.encode.
@@ -30,3 +30,13 @@ Definition m_seal_stream := Encrypt.seal_stream.
 Definition m_open_stream := Decrypt.open_stream.
 Definition m_signcrypt_seal_stream := Signcrypt.signcrypt_seal_stream.
 Definition m_signcrypt_open_stream := Signcrypt.signcrypt_open_stream.
+
+(* ---- armor / classify ---- *)
+Definition m_armor62_seal := Armor.armor62_seal.
+Definition m_dearmor := Armor.dearmor.
+Definition m_check_armor62 := Armor.check_armor62.
+Definition m_make_frame := Armor.make_frame.
+Definition m_binary_slice := Armor.binary_slice.
+Definition m_armored_prefix := Armor.armored_prefix.
+Definition m_header_marker := Armor.header_marker.
+Definition m_footer_marker := Armor.footer_marker.
